@@ -265,18 +265,26 @@ func checkC20(tier string, seed int64) *CustomResult {
 	if len(run.samples) == 0 {
 		run.samples = append(run.samples, c20Case{Kind: "ringbuffer", Ops: []string{"cap2", "A", "A", "A"}, Start: 1, Count: 1})
 	}
-	return &CustomResult{
+	scov, sfound, sharness := checkC20Stream(tier)
+	run.found = append(run.found, sfound...)
+	defer func() {}()
+	res := &CustomResult{
 		Coverage: map[string]interface{}{
 			"states": run.states, "transitions": run.transitions, "traces_validated_against_impl": run.transitions,
 			"evaluations": run.queries, "distinct_nontrivial": len(run.nontrivial), "exhaustive": true, "samples": run.samples,
 			"rule": fmt.Sprintf("ring buffer: every sequence over {Add, Resize(1..%d)} up to depth %d from every initial capacity 1..%d, executed on the real ring buffer; in every state every query start in 0..id+2 x count in 0..cap+2 and MaxUint64 is compared with a plain-slice reference. store: every sequence over {Store, Collect, SetStoreSize(1..3)} up to depth %d. non-trivial = the reference answer contains at least one event", maxCap, depth, maxCap, sdepth),
-			"explanation": "explicit-state search without a separate model: every state is reached by executing the operations on the implementation (stream subscription timing is explored by the interleaving engine, see C14/E2 section)",
+			"explanation": "explicit-state search without a separate model: every state is reached by executing the operations on the implementation plus, for the stream, every lock-granularity interleaving of the publisher body with CreateEventStream under the cooperative scheduler (engine E2)",
 		},
 		Violations: run.found,
+		Harness:    sharness,
 	}
+	for k, x := range scov {
+		res.Coverage[k] = x
+	}
+	return res
 }
 
 func init() {
 	registerCheck(&CheckDef{Prop: "C20", Level: "model_checking", Technique: "explicit-state search over all Add/Resize sequences of the real ring buffer with every query in every state against a plain-slice reference", Custom: checkC20,
-		Assumptions: []string{"the stream subscription race (history vs. live events) is decided by the interleaving explorer"}})
+		Assumptions: []string{"stream: one publisher (the event system has one), 2-3 events, history counts 0,1,2,5, ring capacities 2 and 4; what is still buffered when the stream is closed is not judged"}})
 }
